@@ -118,6 +118,8 @@ theorem parse_perturbed (t : Tables) (tol : Tol) (htol : tol.ok) (hwf : wfA t to
     (hgap : (x < 0 ∧ Q tol g' x) ∨ (x > 0 ∧ g' = sumAbs (li' ++ sy' ++ [mo']) - x ∧ g' < 0)) :
     parse t tol (li' ++ sy' ++ [mo', g']) =
       .ok { bits := idx.flatMap (idxToBits t.bursts.length), cleaned := compress (frameA t mo x idx) } := by
+  have hgen : streamEnc t.bursts = .general := by
+    have h := hwf; unfold wfA at h; rw [Bool.and_eq_true] at h; exact supported_general h.1
   obtain ⟨mo0, x0, hlo0, hmo, hx0, _, hb, hd⟩ := wfA_leadOut hwf
   rw [hlo] at hlo0
   obtain ⟨rfl, rfl⟩ : mo = mo0 ∧ x = x0 := by simpa using hlo0
@@ -153,7 +155,8 @@ theorem parse_perturbed (t : Tables) (tol : Tol) (htol : tol.ok) (hwf : wfA t to
       exact leadOutLoop_gap' tol t.bursts _ mo x mo' g' hmo hs hm1 (isMatch_of_Q tol htol g' x hq) sy'
     · rw [if_pos hxp]
       exact leadOutLoop_period' tol htol t.bursts _ mo x mo' g' (fun p hp => (hb p hp).2.1) hmo hxp hm1 hg hneg sy'
-  unfold parse parseWith
+  rw [parse_general hgen]
+  unfold parseWith
   rw [hperiod]
   simp only [bind, Except.bind, dropLast_two, hin, hlo, List.length_cons, List.length_nil, hout,
     List.append_nil, hcls, hpairs, hbits, pure, Except.pure]
